@@ -50,8 +50,11 @@ struct Srv : public HttpServer
 		if (strstr(s.path.c_str(), "..")) { g_dotdot++; std::lock_guard<std::mutex> l(g_mu); g_dotdotPath = s.path; }
 		s.body = std::string((const char*)req.body().data(), req.body().length());
 		s.querystring = *req.querystring();
+		// a handler looking up an optional parameter that was not sent gets "" and must not change what query() reports
+		if (vf::fnv(s.path) & 1) { String a = req.query("zz-not-sent"); if (a.length()) s.query["<lookup of a parameter that was not sent returned text>"] = *a; }
 		const Dic<>& q = req.query();
 		foreach2(String& k, const String& v, q) s.query[std::string(*k, k.length())] = std::string(*v, v.length());
+		foreach2(String& k2, const String& v2, q) { String w = req.query(k2); if (w != v2) s.query["<query(key) differs from query()[key]> " + std::string(*k2)] = *w; }
 		{
 			std::lock_guard<std::mutex> l(g_mu);
 			for (size_t i = 0; i < g_lookups.size(); i++) if (req.hasHeader(g_lookups[i].c_str())) { String v = req.header(g_lookups[i].c_str()); s.headers[g_lookups[i]] = std::string(*v, v.length()); }
